@@ -4,7 +4,7 @@ Inputs: harvested corpus (test-suite SQL with dialects, TPC-DS in thorough mode)
 applied at the whitespace boundaries of the text outside quotes: R1 other whitespace / line breaks, R2 block / line comments,
 R3 keyword case, R4 case of unquoted identifiers, R5 quoting of lower-case identifiers (ansi), R6 extra trailing semicolons
 (with comments).  quick: every rewrite at all boundaries at once + a seeded choice of single boundaries; thorough: every
-rewrite at every single boundary.
+every rewrite at up to 12 evenly spaced single boundaries per input.
 
   --thorough
   --confirm ID    re-run the recorded witnesses of a known finding; exit 1 iff one still fails
@@ -192,7 +192,11 @@ def main():
         if where == "D17":
             variants += [("R1 layout inside a dotted reference", sql.replace(".", " . ")), ("R2 comment inside a dotted reference", sql.replace(".", "./*c*/"))]
         g = gaps(sql)
-        picks = range(len(g)) if thorough else rnd.sample(range(len(g)), min(3, len(g)))
+        if thorough:
+            step_ = max(1, len(g) // 12)
+            picks = list(range(0, len(g), step_))[:12]  # at most 12 evenly spaced boundaries per input
+        else:
+            picks = rnd.sample(range(len(g)), min(3, len(g)))
         for k in picks:
             for n, repl in SINGLE:
                 variants.append((f"{n} @gap{k}", at_gaps(sql, {k}, repl)))
